@@ -233,6 +233,18 @@ func c06Decode(c *Ctx, input string, useNumber bool) (nontrivial bool) {
 		}
 		return false
 	}
+	if amb {
+		// open corner (array followed by further bytes): the documented textual wrapping
+		// {"object": <input> } is also an accepted reading when it happens to be valid JSON
+		wdec := json.NewDecoder(strings.NewReader(`{"object":` + strings.TrimLeft(input, " \t\r\n") + `}`))
+		if useNumber {
+			wdec.UseNumber()
+		}
+		var wm map[string]interface{}
+		if wdec.Decode(&wm) == nil && deepEq(map[string]interface{}(got), wm) {
+			return true
+		}
+	}
 	if !deepEq(map[string]interface{}(got), exp) {
 		c.Violate("NewMapJson", "value", shape, cas, nil, fmt.Sprintf("input=%q useNumber=%v\n expected=%s\n   actual=%s", input, useNumber, dump(exp), dump(got)))
 		return true
@@ -253,7 +265,7 @@ func c06Run(c *Ctx) {
 	mustBeDefault(c)
 	bsu := "\\" + "u003c" // the six-character text backslash-u-0-0-3-c, as data
 	c.S.Rule = "encode side: (a) every Map template with <= N nodes over keys {a, k} with leaves {\"s\", \"<&>\", 1.5, true, null} and (b) the structures {k:s}, {s:v}, {k:[s,{j:s}]} for every word s of <= 3 tokens over {<, >, &, backslash, quote, the six-character texts \\u003c \\u003e \\u0026 \\u2028 \\u2029 as data, u003c, U+0001, newline, a, e-acute, U+2028}; encoders Json, JsonIndent (4 prefix/indent pairs incl. both empty), Copy, j2x.MapToJson, default and safe encoding; oracle: valid JSON, NewMapJson(out) deep-equals the original, default mode shows every <,>,& of the data literally, safe mode shows none and is byte-identical to encoding/json; returned bytes retained and re-checked after later calls. decode side: every byte string of <= K tokens over {{, }, [, ], \"a\", :, comma, 1, 1.0, null, true, space, x, form feed, U+00A0} with JsonUseNumber off and on; oracle: NewMapJson accepts exactly when encoding/json's Decoder decodes the first value as an object (or array, wrapped under \"object\") and returns the same value; number text survives with JsonUseNumber. non-trivial = data with <,>,& (encode) / accepted non-empty value (decode)."
-	c.S.Assumptions = []string{"top-level null: nil or empty Map accepted", "an array followed by further non-blank bytes: accept (wrapped) and reject both accepted (textual wrapping is what the documentation describes)"}
+	c.S.Assumptions = []string{"top-level null: nil or empty Map accepted", "an array followed by further non-blank bytes: reject, accept as {object: array}, and accept as the decode of the documented textual wrapping {\"object\": input} are all accepted"}
 	n, k := 4, 5
 	if c.Thorough {
 		n, k = 5, 6
